@@ -54,7 +54,12 @@ def run(rep):
 def _dict_literals(fi):
     """[(name, {key: value}, node)] for locals assigned a literal dict of constants"""
     out = []
-    for n in walk_local(fi.node):
+    # ... and module-level tables the function reads by name (never re-bound in it)
+    read = {n.id for n in walk_local(fi.node) if isinstance(n, ast.Name) and isinstance(n.ctx, ast.Load)}
+    bound = {n.id for n in walk_local(fi.node) if isinstance(n, ast.Name) and isinstance(n.ctx, ast.Store)} | set(fi.params)
+    top = [st for st in fi.module.tree.body if isinstance(st, ast.Assign) and len(st.targets) == 1 and isinstance(st.targets[0], ast.Name)
+           and st.targets[0].id in read - bound]
+    for n in list(walk_local(fi.node)) + top:
         if isinstance(n, ast.Assign) and isinstance(n.targets[0], ast.Name) and isinstance(n.value, ast.Dict) and n.value.keys:
             try:
                 out.append((n.targets[0].id, {const(k): const(v) for k, v in zip(n.value.keys, n.value.values)}, n))
